@@ -246,6 +246,18 @@ func (it *omapIter) next() tuple {
 }
 
 func newOmapIter(in *interpreter, m *omap) iter {
+	if m != nil && m.live >= 2 {
+		in.mapRanges++
+		if in.reverseRange == in.mapRanges {
+			var order []*omapEntry
+			for i := len(m.ents) - 1; i >= 0; i-- {
+				if !m.ents[i].dead {
+					order = append(order, m.ents[i])
+				}
+			}
+			return &omapIter{m: m, order: order}
+		}
+	}
 	if m != nil && in.mapOrderNondet && m.live >= 2 && m.live <= 4 {
 		var live []*omapEntry
 		for _, e := range m.ents {
